@@ -476,6 +476,15 @@ func dispatch(input io.Reader, logPath string, workerArgs []string, nworkers, ba
 		line, err := rd.ReadBytes('\n')
 		if len(line) > 0 {
 			l := bytes.TrimRight(line, "\r\n")
+			if err != nil && len(l) > 1 && (l[0] == '"' || l[0] == '{') {
+				// the generator was stopped (a simulation ends by its time limit) in the middle of a line: not a case
+				if in, ok := decodeLine(l); !ok || !json.Valid(in) {
+					mu.Lock()
+					sum.Counters["partial-last-line-dropped"]++
+					mu.Unlock()
+					break
+				}
+			}
 			if len(l) > 1 && ((l[0] == '"' && l[1] == '{') || l[0] == '{') {
 				if maxCases == 0 || total < maxCases {
 					cur = append(cur, append([]byte(nil), l...))
